@@ -1,7 +1,7 @@
 (* C10: the cases written by the correspondence harness, over all mechanism models (definitions only).
    `C0` wraps the cases of Model.v (ring, fixed queue, FastVec with drop-counting elements). *)
 From ZV.Common Require Import Base Run.
-From ZV.C10 Require Import Model ModelValVec32 ModelArena ModelStrVec ModelFixedLen.
+From ZV.C10 Require Import Model ModelValVec32 ModelArena ModelStrVec ModelFixedLen ModelFastVecCopy.
 Open Scope N_scope.
 
 Inductive case_t : Type :=
@@ -11,7 +11,9 @@ Inductive case_t : Type :=
 (* SortableStrVec *)
 | CStr (ops : list ts) (expect : list (list Z))
 (* FixedLenStrVec<n> *)
-| CFix (n : N) (ops : list fop) (expect : list (list Z)).
+| CFix (n : N) (ops : list fop) (expect : list (list Z))
+(* FastVec<T: Copy>: size_of::<T>(), initial capacity *)
+| CVecC (esz c : N) (ops : list tc) (expect : list (list Z)).
 
 Definition ok (c : case_t) : bool :=
   match c with
@@ -19,4 +21,5 @@ Definition ok (c : case_t) : bool :=
   | CVV counted c usable ops e => eqb_llz (vv32_trace counted (vv_with_capacity N c usable) ops) e
   | CStr ops e => eqb_llz (ssv_trace ssv_new ops) e
   | CFix n ops e => eqb_llz (flv_trace n flv_new ops) e
+  | CVecC esz c ops e => eqb_llz (fvc_trace esz (if c =? 0 then fv_new else fv_with_capacity c) ops) e
   end.
